@@ -457,7 +457,7 @@ def enumerate_runs(case):
         return [_one_run(case, _replay_choose(s)) for s in case["schedules"]], False
     rng = random.Random(case.get("seed", 0))
     cap = case.get("max_orders", 120)
-    return sched.explore(lambda choose: _one_run(case, choose), cap, rng, samples=min(cap, 200))
+    return sched.explore(lambda choose: _one_run(case, choose), cap, rng, samples=min(cap, case.get("samples", 200)))
 
 
 def run_impl(case):
@@ -707,7 +707,7 @@ def corpus():
                   [None, "i", None, [["tn2", META, None, []], [None, "a", None, []]]]]
         for frag in (None, "inline", "spread"):
             out.append(_base(config, sel=tn_sel, lens={"l": 2}, n=1, k=2, stacking="tracer", frag=frag,
-                             max_orders=30, deferred=["Query.o"] if config in DEFERRED_CFG else []))
+                             max_orders=20, samples=10, deferred=["Query.o"] if config in DEFERRED_CFG else []))
         out.append(_base(config, op="mutation", sel=[[None, META, None, []], [None, "a", None, []],
                                                      [None, "o", None, [[None, META, None, []]]]], n=2))
         out.append(_base(config, op="mutation", sel=[[None, "a", None, []], [None, "b", None, []]],
@@ -846,17 +846,18 @@ def generate(rng, tier):
                 st = rng.choice(["plain", "tracer"] if k == 1 else ["multi", "tracer", "nested"])
                 cases.append(_base(config, kind=kind, as_text=as_text, k=k, stacking=st,
                                    n=rng.choice([0, 2]), mw_async=rng.random() < 0.5, **extra))
-    n_block = 170 if quick else 900
+    n_block = 150 if quick else 900
     n_def = 70 if quick else 200
     for config in ("blocking", "generic"):
         for _ in range(n_block):
             cases.append(_gen_exec(rng, config, 0, 1))
     for config in DEFERRED_CFG:
         for _ in range(n_def):
-            cases.append(_gen_exec(rng, config, rng.choice([2, 3, 4, 5]), 120))
+            cases.append(dict(_gen_exec(rng, config, rng.choice([2, 3, 4, 5]), 60 if quick else 120),
+                              samples=30 if quick else 200))
         # all orders of a few larger operations
         for _ in range(3 if quick else 6):
-            cases.append(_gen_exec(rng, config, 6, 120 if quick else 720))
+            cases.append(dict(_gen_exec(rng, config, 6, 120 if quick else 720), samples=30 if quick else 200))
     if not quick:
         flat6 = [[None, f, None, []] for f in ("a", "b", "c")] + [["a2", "a", None, []], ["b2", "b", None, []],
                                                                     ["c2", "c", None, []], ["a3", "a", None, []]]
